@@ -159,7 +159,11 @@ def run_send(seed, nthreads, per_thread, plan_kind, inbound, send_buffer, big=Fa
         for i in range(inbound):
             n.feed(n.make("REQ", True, 1).dump())
         total = sum(len(m.dump()) for ms in msgs.values() for m in ms)
+        stalled = None
         try:
+            # first without firing any long timer: everything submitted must reach the socket on its own
+            if not sc.run(until=lambda: all(x.done for x in subs) and len(n.sock.sent) >= total, limit=30000, timers=False):
+                stalled = len(n.sock.sent)
             sc.run(until=lambda: all(x.done for x in subs) and len(n.sock.sent) >= total, limit=30000)
             end = sc.settle(limit=8000)
         except vsched.Deadlock as e:
@@ -168,6 +172,8 @@ def run_send(seed, nthreads, per_thread, plan_kind, inbound, send_buffer, big=Fa
             end = type(e).__name__ + ": " + str(e)
         sent = bytes(n.sock.sent)
         frames, rest = split_frames(sent)
+        # base-protocol frames of the node itself (a watchdog request after a long wait) are not submissions
+        frames = [f for f in frames if not (len(f) >= 8 and int.from_bytes(f[5:8], "big") in (257, 280, 282))]
         want = {t: [m.dump() for m in ms] for t, ms in msgs.items()}
         flat = [d for ds in want.values() for d in ds]
         problems = []
@@ -196,6 +202,9 @@ def run_send(seed, nthreads, per_thread, plan_kind, inbound, send_buffer, big=Fa
                 problems.append(f"messages of submitter {t} were written out of submission order")
         if isinstance(end, str) and end.startswith(("deadlock", "Step")):
             problems.append(end)
+        if not problems and stalled is not None and plan_kind != "blocked":
+            problems.append(f"only {stalled} of {total} submitted bytes had been written when every thread had gone idle; the rest left the node only after "
+                            "a timer caused another write")
         return ("; ".join(problems) if problems else None), {"end": end, "sent": len(sent), "expected": total, "frames": len(frames)}
     finally:
         sc.close_scenario()
